@@ -1045,3 +1045,365 @@ Lemma entry_list_on_the_rule_slice_refuted :
   logged_of (eworld_run entries_fresh ew_sched ew_demo) 1 = [0; 1; 2; 3]%nat /\
   logged_of (eworld_run entries_fresh ew_sched ew_demo) 2 = [0; 1; 2; 4]%nat.
 Proof. vm_compute. repeat split; reflexivity. Qed.
+
+(* ------------------------------------------------------------------------------------------ *)
+(* E. the scan as a decomposition of the format string (deepening, round 6)                      *)
+(* ------------------------------------------------------------------------------------------ *)
+Lemma firstn_S_last {A} (l : list A) : forall n x, nth_error l n = Some x -> firstn (S n) l = firstn n l ++ [x].
+Proof.
+  induction l as [|a l IH]; intros [|n] x H; try discriminate.
+  - simpl in H. injection H as ->. reflexivity.
+  - simpl in H. change (a :: firstn (S n) l = a :: (firstn n l ++ [x])). f_equal. exact (IH n x H).
+Qed.
+
+Lemma skipn_add {A} : forall y (l : list A) x, skipn x (skipn y l) = skipn (y + x) l.
+Proof.
+  induction y as [|y IH]; intros l x; [reflexivity|].
+  destruct l as [|a l]; [simpl; apply skipn_nil|]. simpl. apply IH.
+Qed.
+
+(* one round of the outer loop splits the unscanned text into (raw prefix) ++ (raw placeholder)
+   ++ rest, the placeholder being "{" ... "}"; the prefix goes to the output unescaped (minus the
+   TrimPrefix quirk), the placeholder unescaped to getSubstitution, and ONLY [rest] is scanned again *)
+Lemma scan_step_decomp s pre key rest :
+  scan_step s = Ok (Some (pre, key, rest)) ->
+  exists a m, s = a ++ (LB :: m ++ [RB]) ++ rest /\
+              pre = trim_prefix_bsl (unescape_braces a) /\ key = unescape_braces (LB :: m ++ [RB]).
+Proof.
+  unfold scan_step.
+  destruct (find_unescaped_ok (S (length s)) LB s 0%nat) as [st [Est Hst]]; [discriminate|lia|lia|].
+  rewrite Est. cbn [rbind].
+  destruct st as [i0|]; [|discriminate].
+  destruct (Hst i0 eq_refl) as [[_ Hi0] [Hn0 _]].
+  ok_from s i0. set (sp := skipn i0 s).
+  assert (Hsp : length sp = (length s - i0)%nat) by apply skipn_length.
+  destruct (find_unescaped_ok (S (length sp)) RB sp 0%nat) as [en [Een Hen]]; [discriminate|lia|lia|].
+  rewrite Een. cbn [rbind].
+  destruct en as [e|]; [|discriminate].
+  destruct (Hen e eq_refl) as [[_ He] [Hne _]].
+  assert (H0 : nth_error sp 0 = Some LB) by (unfold sp; rewrite nth_error_skipn, Nat.add_0_r; exact Hn0).
+  assert (He0 : e <> 0%nat) by (intros ->; rewrite H0 in Hne; discriminate).
+  ok_slice s i0 (i0 + e + 1)%nat. ok_slice s 0%nat i0. ok_from s (i0 + e + 1)%nat.
+  intro H. injection H as <- <- <-.
+  replace (i0 + e + 1 - i0)%nat with (S e) by lia. fold sp.
+  rewrite Nat.sub_0_r. change (skipn 0 s) with s.
+  destruct sp as [|c sp'] eqn:Esp; [discriminate|]. simpl in H0. injection H0 as ->.
+  destruct e as [|e']; [congruence|]. simpl in Hne.
+  exists (firstn i0 s), (firstn e' sp'). split; [|split; [reflexivity|]].
+  - rewrite <- (firstn_S_last sp' e' RB Hne).
+    change (LB :: firstn (S e') sp') with (firstn (S (S e')) (LB :: sp')).
+    replace (skipn (i0 + S e' + 1) s) with (skipn (S (S e')) (LB :: sp')).
+    + rewrite firstn_skipn. rewrite <- Esp. unfold sp. symmetry. apply firstn_skipn.
+    + rewrite <- Esp. unfold sp. rewrite skipn_add. f_equal. lia.
+  - change (firstn (S (S e')) (LB :: sp')) with (LB :: firstn (S e') sp').
+    rewrite (firstn_S_last sp' e' RB Hne). reflexivity.
+Qed.
+
+Lemma index_from_min c : forall s i k, index_from [c] s i = Some k ->
+  forall j, (j < k - i)%nat -> nth_error s j <> Some c.
+Proof.
+  induction s as [|x s IH]; intros i k H j Hj; simpl in H; [discriminate|].
+  destruct (x =? c) eqn:E; simpl in H.
+  - injection H as <-. lia.
+  - destruct j as [|j']; simpl.
+    + intro Hx. injection Hx as ->. rewrite N.eqb_refl in E. discriminate.
+    + apply (IH (S i) k H). pose proof (index_from_hit c s (S i) k H) as [Hle _]. lia.
+Qed.
+Lemma index_from_none c : forall s i, index_from [c] s i = None -> forall j, nth_error s j <> Some c.
+Proof.
+  induction s as [|x s IH]; intros i H j; simpl in H.
+  - destruct j; discriminate.
+  - destruct (x =? c) eqn:E; simpl in H; [discriminate|].
+    destruct j as [|j']; simpl.
+    + intro Hx. injection Hx as ->. rewrite N.eqb_refl in E. discriminate.
+    + apply (IH (S i) H).
+Qed.
+
+Definition escaped_at (s : bytes) (j : nat) : Prop := exists j', j = S j' /\ nth_error s j' = Some BSL.
+
+Lemma find_unescaped_min fuel : forall c s off r,
+  c <> BSL -> (off <= length s)%nat ->
+  (off = 0%nat \/ exists y, nth_error s (off - 1) = Some y /\ y <> BSL) ->
+  find_unescaped fuel c s off = Ok r ->
+  forall j, (off <= j)%nat -> (match r with Some k => (j < k)%nat | None => True end) ->
+            nth_error s j = Some c -> escaped_at s j.
+Proof.
+  induction fuel as [|fuel IH]; intros c s off r Hc Hoff Hinv H j Hj Hlt Hn; [discriminate|].
+  simpl in H. rewrite (slice_from_ok s off Hoff) in H. cbn [rbind] in H.
+  destruct (index_of [c] (skipn off s)) as [i|] eqn:Ei.
+  2:{ exfalso. apply (index_from_none c _ 0%nat Ei (j - off)%nat).
+      rewrite nth_error_skipn. replace (off + (j - off))%nat with j by lia. exact Hn. }
+  pose proof (index_of_hit _ _ _ Ei) as Hhit. rewrite nth_error_skipn in Hhit.
+  pose proof (index_from_min c _ 0%nat i Ei) as Hmin.
+  assert (Hno : forall j0, (off <= j0 < off + i)%nat -> nth_error s j0 <> Some c).
+  { intros j0 Hj0. specialize (Hmin (j0 - off)%nat). rewrite nth_error_skipn in Hmin.
+    replace (off + (j0 - off))%nat with j0 in Hmin by lia. apply Hmin. lia. }
+  pose proof (index_of_bound _ _ _ Ei) as Hb. rewrite skipn_length in Hb. simpl in Hb.
+  destruct i as [|i'].
+  - injection H as <-. lia.
+  - destruct (idx_ok (skipn off s) i') as [v Ev]; [rewrite skipn_length; lia|].
+    rewrite Ev in H. cbn [rbind] in H.
+    apply idx_Ok_nth in Ev. rewrite nth_error_skipn in Ev.
+    destruct (negb (v =? BSL)) eqn:Eb.
+    + injection H as <-. exfalso. apply (Hno j); [lia|exact Hn].
+    + apply negb_false_iff, N.eqb_eq in Eb. subst v.
+      destruct (Nat.lt_ge_cases j (off + S i')) as [Hlt1|Hge1]; [exfalso; apply (Hno j); [lia|exact Hn]|].
+      destruct (Nat.eq_dec j (off + S i')) as [->|Hne].
+      * exists (off + i')%nat. split; [lia|exact Ev].
+      * apply (IH c s (off + S i' + 1)%nat r Hc); auto; try lia.
+        right. exists c. split; [|exact Hc].
+        replace (off + S i' + 1 - 1)%nat with (off + S i')%nat by lia. exact Hhit.
+Qed.
+
+Lemma nth_error_firstn_lt {A} (l : list A) : forall n j, (j < n)%nat -> nth_error (firstn n l) j = nth_error l j.
+Proof.
+  induction l as [|a l IH]; intros [|n] [|j] H; try lia; try reflexivity.
+  simpl. apply IH. lia.
+Qed.
+Lemma nth_error_firstn_some {A} (l : list A) n j x : nth_error (firstn n l) j = Some x -> (j < n)%nat.
+Proof.
+  intro H. assert (Hl : (j < length (firstn n l))%nat) by (apply nth_error_Some; congruence).
+  rewrite firstn_length in Hl. lia.
+Qed.
+
+(* the placeholder found by one round is the LEFTMOST complete unescaped one: every opening brace
+   of the raw prefix is escaped, and every closing brace inside the placeholder before its last
+   character is escaped *)
+Definition first_close (p : bytes) : Prop :=
+  forall j, (S j < length p)%nat -> nth_error p j = Some RB -> escaped_at p j.
+
+Lemma scan_step_decomp_min s pre key rest :
+  scan_step s = Ok (Some (pre, key, rest)) ->
+  exists a m, s = a ++ (LB :: m ++ [RB]) ++ rest /\
+              pre = trim_prefix_bsl (unescape_braces a) /\ key = unescape_braces (LB :: m ++ [RB]) /\
+              all_open_escaped a /\ first_close (LB :: m ++ [RB]).
+Proof.
+  unfold scan_step.
+  destruct (find_unescaped_ok (S (length s)) LB s 0%nat) as [st [Est Hst]]; [discriminate|lia|lia|].
+  pose proof (find_unescaped_min (S (length s)) LB s 0%nat st ltac:(discriminate) ltac:(lia) (or_introl eq_refl) Est) as HminL.
+  rewrite Est. cbn [rbind].
+  destruct st as [i0|]; [|discriminate].
+  destruct (Hst i0 eq_refl) as [[_ Hi0] [Hn0 _]].
+  ok_from s i0. set (sp := skipn i0 s).
+  assert (Hsp : length sp = (length s - i0)%nat) by apply skipn_length.
+  destruct (find_unescaped_ok (S (length sp)) RB sp 0%nat) as [en [Een Hen]]; [discriminate|lia|lia|].
+  pose proof (find_unescaped_min (S (length sp)) RB sp 0%nat en ltac:(discriminate) ltac:(lia) (or_introl eq_refl) Een) as HminR.
+  rewrite Een. cbn [rbind].
+  destruct en as [e|]; [|discriminate].
+  destruct (Hen e eq_refl) as [[_ He] [Hne _]].
+  assert (H0 : nth_error sp 0 = Some LB) by (unfold sp; rewrite nth_error_skipn, Nat.add_0_r; exact Hn0).
+  assert (He0 : e <> 0%nat) by (intros ->; rewrite H0 in Hne; discriminate).
+  ok_slice s i0 (i0 + e + 1)%nat. ok_slice s 0%nat i0. ok_from s (i0 + e + 1)%nat.
+  intro H. injection H as <- <- <-.
+  replace (i0 + e + 1 - i0)%nat with (S e) by lia. fold sp.
+  rewrite Nat.sub_0_r. change (skipn 0 s) with s.
+  assert (Hopen : all_open_escaped (firstn i0 s)).
+  { intros k Hk. pose proof (nth_error_firstn_some _ _ _ _ Hk) as Hlt.
+    rewrite (nth_error_firstn_lt s i0 k Hlt) in Hk.
+    destruct (HminL k ltac:(lia) Hlt Hk) as [j' [-> Hj']]. exists j'. split; [reflexivity|].
+    rewrite nth_error_firstn_lt; [exact Hj'|lia]. }
+  assert (Hclose : first_close (firstn (S e) sp)).
+  { intros j Hj Hn. rewrite firstn_length in Hj.
+    assert (Hje : (j < e)%nat) by lia.
+    rewrite (nth_error_firstn_lt sp (S e) j ltac:(lia)) in Hn.
+    destruct (HminR j ltac:(lia) Hje Hn) as [j' [-> Hj']]. exists j'. split; [reflexivity|].
+    rewrite nth_error_firstn_lt; [exact Hj'|lia]. }
+  destruct sp as [|c sp'] eqn:Esp; [discriminate|]. simpl in H0. injection H0 as ->.
+  destruct e as [|e']; [congruence|]. simpl in Hne.
+  assert (Eph : firstn (S (S e')) (LB :: sp') = LB :: firstn e' sp' ++ [RB]).
+  { change (firstn (S (S e')) (LB :: sp')) with (LB :: firstn (S e') sp').
+    rewrite (firstn_S_last sp' e' RB Hne). reflexivity. }
+  exists (firstn i0 s), (firstn e' sp'). split; [|split; [reflexivity|split; [|split]]].
+  - rewrite <- Eph.
+    replace (skipn (i0 + S e' + 1) s) with (skipn (S (S e')) (LB :: sp')).
+    + rewrite firstn_skipn. rewrite <- Esp. unfold sp. symmetry. apply firstn_skipn.
+    + rewrite <- Esp. unfold sp. rewrite skipn_add. f_equal. lia.
+  - rewrite Eph. reflexivity.
+  - exact Hopen.
+  - rewrite <- Eph. exact Hclose.
+Qed.
+
+(* what is left when the scan stops: either no unescaped opening brace at all, or a last
+   unescaped opening brace after which no unescaped closing brace follows (unpaired placeholder) *)
+Definition unpaired_tail (s : bytes) : Prop :=
+  all_open_escaped s \/
+  exists a r, s = a ++ LB :: r /\ all_open_escaped a /\
+              forall j, nth_error (LB :: r) j = Some RB -> escaped_at (LB :: r) j.
+
+Lemma scan_none_tail s : scan_step s = Ok None -> unpaired_tail s.
+Proof.
+  unfold scan_step.
+  destruct (find_unescaped_ok (S (length s)) LB s 0%nat) as [st [Est Hst]]; [discriminate|lia|lia|].
+  pose proof (find_unescaped_min (S (length s)) LB s 0%nat st ltac:(discriminate) ltac:(lia) (or_introl eq_refl) Est) as HminL.
+  rewrite Est. cbn [rbind].
+  destruct st as [i0|].
+  2:{ intros _. left. intros k Hk. destruct (HminL k ltac:(lia) I Hk) as [j' [-> Hj']]. exists j'. split; auto. }
+  destruct (Hst i0 eq_refl) as [[_ Hi0] [Hn0 _]].
+  ok_from s i0. set (sp := skipn i0 s).
+  assert (Hsp : length sp = (length s - i0)%nat) by apply skipn_length.
+  destruct (find_unescaped_ok (S (length sp)) RB sp 0%nat) as [en [Een Hen]]; [discriminate|lia|lia|].
+  pose proof (find_unescaped_min (S (length sp)) RB sp 0%nat en ltac:(discriminate) ltac:(lia) (or_introl eq_refl) Een) as HminR.
+  rewrite Een. cbn [rbind].
+  destruct en as [e|].
+  { destruct (Hen e eq_refl) as [[_ He] _].
+    ok_slice s i0 (i0 + e + 1)%nat. ok_slice s 0%nat i0. ok_from s (i0 + e + 1)%nat. discriminate. }
+  intros _. right.
+  assert (H0 : nth_error sp 0 = Some LB) by (unfold sp; rewrite nth_error_skipn, Nat.add_0_r; exact Hn0).
+  destruct sp as [|c r] eqn:Esp; [discriminate|]. simpl in H0. injection H0 as ->.
+  exists (firstn i0 s), r. split; [|split].
+  - rewrite <- Esp. unfold sp. symmetry. apply firstn_skipn.
+  - intros k Hk. pose proof (nth_error_firstn_some _ _ _ _ Hk) as Hlt.
+    rewrite (nth_error_firstn_lt s i0 k Hlt) in Hk.
+    destruct (HminL k ltac:(lia) Hlt Hk) as [j' [-> Hj']]. exists j'. split; [reflexivity|].
+    rewrite nth_error_firstn_lt; [exact Hj'|lia].
+  - intros j Hj. apply (HminR j); [lia|exact I|exact Hj].
+Qed.
+
+(* the pieces of a format: (raw literal, raw placeholder) pairs followed by a raw tail *)
+Definition pieces_cat (ps : list (bytes * bytes)) : bytes := concat (map (fun p => fst p ++ snd p) ps).
+Definition pieces_template (ps : list (bytes * bytes)) (tail : bytes) : list seg :=
+  flat_map (fun p => [Lit (trim_prefix_bsl (unescape_braces (fst p))); Ph (unescape_braces (snd p))]) ps
+  ++ [Lit (unescape_braces tail)].
+Definition pieces_out (gs : bytes -> bytes) (ps : list (bytes * bytes)) (tail : bytes) : bytes :=
+  concat (map (fun p => trim_prefix_bsl (unescape_braces (fst p)) ++ gs (unescape_braces (snd p))) ps)
+  ++ unescape_braces tail.
+Definition braced (p : bytes) : Prop := exists m, p = LB :: m ++ [RB].
+(* a piece as the scan cuts it: the literal has no unescaped opening brace, the placeholder is
+   "{" ... "}" and its last character is its first unescaped closing brace *)
+Definition leftmost_piece (p : bytes * bytes) : Prop :=
+  all_open_escaped (fst p) /\ braced (snd p) /\ first_close (snd p).
+
+Lemma template_loop_decomp fuel : forall s, (length s < fuel)%nat ->
+  exists ps tail, s = pieces_cat ps ++ tail /\ Forall leftmost_piece ps /\
+                  scan_step tail = Ok None /\
+                  template_loop fuel s = Ok (pieces_template ps tail).
+Proof.
+  induction fuel as [|fuel IH]; intros s Hf; [lia|]. cbn [template_loop].
+  destruct (scan_step_ok s) as [st [Est Hst]]. rewrite Est. cbn [rbind].
+  destruct st as [[[pre key] rest]|].
+  - destruct (Hst pre key rest eq_refl) as [Hlen _].
+    destruct (scan_step_decomp_min s pre key rest Est) as [a [m [Es [Epre [Ekey [Hop Hcl]]]]]].
+    destruct (IH rest) as [ps [tail [Er [Hb [Htail Et]]]]]; [lia|]. rewrite Et. cbn [rbind].
+    exists ((a, LB :: m ++ [RB]) :: ps), tail. repeat split.
+    + unfold pieces_cat. cbn [map concat fst snd]. fold (pieces_cat ps).
+      rewrite Es at 1. rewrite Er at 1. repeat (rewrite <- ?app_assoc; cbn [app]). reflexivity.
+    + constructor; [split; [exact Hop|split; [exists m; reflexivity|exact Hcl]]|exact Hb].
+    + exact Htail.
+    + unfold pieces_template. cbn [flat_map fst snd app]. rewrite <- Epre, <- Ekey. reflexivity.
+  - exists [], s. repeat split; auto.
+Qed.
+
+Lemma pieces_render gs ps tail : render gs (pieces_template ps tail) = pieces_out gs ps tail.
+Proof.
+  unfold pieces_template, pieces_out. rewrite render_app. f_equal.
+  - induction ps as [|p ps IH]; [reflexivity|].
+    cbn [flat_map map concat]. rewrite render_app, IH. unfold render. simpl.
+    rewrite app_nil_r, <- app_assoc. reflexivity.
+  - unfold render. simpl. apply app_nil_r.
+Qed.
+
+(* THE theorem about Replace over all strings: every format is, uniquely from left to right,
+   literal_1 placeholder_1 ... literal_n placeholder_n tail; the output is the concatenation, in
+   that order, of each literal with its brace escapes removed and of the VALUE of each
+   placeholder, each looked up exactly once and inserted as it is (gs is arbitrary: a value that
+   begins with a backslash, contains braces, escapes or whole placeholders is not trimmed,
+   unescaped or scanned), followed by the unescaped tail, in which no complete unescaped
+   placeholder is left.  Literals may be empty (adjacent placeholders, a placeholder at
+   position 0). *)
+Lemma replace_scan_decomposition gs fmt :
+  exists ps tail,
+    fmt = pieces_cat ps ++ tail /\ Forall leftmost_piece ps /\
+    (has_brace fmt = true -> scan_step tail = Ok None) /\ unpaired_tail tail /\
+    template fmt = Ok (pieces_template ps tail) /\
+    expand gs fmt = Ok (pieces_out gs ps tail).
+Proof.
+  destruct (has_brace fmt) eqn:Eb.
+  - destruct (template_loop_decomp (S (length fmt)) fmt) as [ps [tail [Es [Hb [Ht Et]]]]]; [lia|].
+    exists ps, tail. split; [exact Es|split; [exact Hb|split; [intros _; exact Ht|split; [exact (scan_none_tail tail Ht)|split]]]].
+    + unfold template. rewrite Eb. exact Et.
+    + rewrite expand_factorises. unfold template. rewrite Eb. cbn [negb]. rewrite Et.
+      rewrite pieces_render. reflexivity.
+  - exists [], fmt. split; [reflexivity|split; [constructor|split; [discriminate|split; [|split]]]].
+    + left. intros k Hk. exfalso. apply (proj1 (has_brace_false fmt Eb)). eapply nth_error_In; exact Hk.
+    + unfold template. rewrite Eb. cbn [negb]. unfold pieces_template. cbn [flat_map app].
+      rewrite (unescape_no_brace fmt Eb). reflexivity.
+    + unfold expand. rewrite Eb. cbn [negb]. unfold pieces_out. cbn [map concat app].
+      rewrite (unescape_no_brace fmt Eb). reflexivity.
+Qed.
+
+(* ------------------------------------------------------------------------------------------ *)
+(* F. logParse over several log directives: nothing is carried from one directive to the next   *)
+(* ------------------------------------------------------------------------------------------ *)
+Lemma log_parse_loop_map : forall ds es,
+  log_parse_loop false pstate0 ds = Some es <-> map parse_dir ds = map Some es.
+Proof.
+  induction ds as [|d ds IH]; intros es; cbn [log_parse_loop map].
+  - split; intro H.
+    + injection H as <-. reflexivity.
+    + destruct es; [reflexivity|discriminate].
+  - unfold parse_dir at 1. destruct (parse_dir_from pstate0 d) as [st'|]; cbn [option_map].
+    + destruct (log_parse_loop false pstate0 ds) as [es0|] eqn:E.
+      * split; intro H.
+        -- injection H as <-. cbn [map]. f_equal. apply (proj1 (IH es0)). reflexivity.
+        -- destruct es as [|e es]; [discriminate|]. cbn [map] in H. injection H as H1 H2.
+           apply (proj2 (IH es)) in H2. injection H2 as ->. rewrite H1. reflexivity.
+      * split; intro H; [discriminate|].
+        destruct es as [|e es]; [discriminate|]. cbn [map] in H. injection H as H1 H2.
+        apply (proj2 (IH es)) in H2. discriminate.
+    + split; intro H; [discriminate|]. destruct es; discriminate.
+Qed.
+
+(* every parsed entry - scope, output, format, except list - is what ITS directive means when it
+   is read alone, whatever stands before or after it in the file *)
+Lemma log_parse_each_its_own ds es :
+  log_parse ds = Some es <-> map parse_dir ds = map Some es.
+Proof. apply log_parse_loop_map. Qed.
+
+Lemma log_parse_nth ds es i d :
+  log_parse ds = Some es -> nth_error ds i = Some d ->
+  exists e, nth_error es i = Some e /\ parse_dir d = Some e.
+Proof.
+  intros H Hd. apply log_parse_each_its_own in H.
+  pose proof (map_nth_error parse_dir i ds Hd) as H1. rewrite H in H1.
+  rewrite nth_error_map in H1. destruct (nth_error es i) as [e|]; [|discriminate].
+  cbn [option_map] in H1. injection H1 as H1. exists e. split; [reflexivity|symmetry; exact H1].
+Qed.
+
+(* the file read in the opposite order gives the same entries in the opposite order; more
+   generally a concatenation parses piecewise *)
+Lemma log_parse_rev ds es : log_parse ds = Some es -> log_parse (rev ds) = Some (rev es).
+Proof.
+  intro H. apply log_parse_each_its_own in H. apply log_parse_each_its_own.
+  rewrite !map_rev, H. reflexivity.
+Qed.
+Lemma log_parse_app ds1 ds2 es1 es2 :
+  log_parse ds1 = Some es1 -> log_parse ds2 = Some es2 -> log_parse (ds1 ++ ds2) = Some (es1 ++ es2).
+Proof.
+  intros H1 H2. apply log_parse_each_its_own in H1, H2. apply log_parse_each_its_own.
+  rewrite !map_app, H1, H2. reflexivity.
+Qed.
+
+(* hence, for a site written as raw directives: each configured log gets exactly one line iff
+   the request is in the scope and not excepted by the except list written in ITS OWN block *)
+Lemma raw_one_line_per_log c cs tbl (haserr hdrw : bool) ds es path ops ret :
+  log_parse ds = Some es ->
+  counts_ok cs (map dir_of es) 0 path (snd (site_serve c cs tbl haserr hdrw (map dir_of es) path ops ret)) = true /\
+  map (fun d => option_map dir_of (parse_dir d)) ds = map (fun e => Some (dir_of e)) es.
+Proof.
+  intro H. split; [apply site_one_line_per_log|].
+  apply log_parse_each_its_own in H.
+  rewrite <- (map_map parse_dir (option_map dir_of)), H, map_map. reflexivity.
+Qed.
+
+(* the variant with the block variables declared before the loop: a directive inherits the
+   except list and the format of the one before it *)
+Local Open Scope string_scope.
+Definition carried_demo : list rawdir :=
+  [ {| rd_args := [bs "/a"; bs "a.log"; bs "{status}"]; rd_block := [(bs "except", [bs "/a/x"])] |};
+    {| rd_args := [bs "/"; bs "b.log"]; rd_block := [] |} ].
+Lemma log_parse_carried_differs :
+  exists ds es es', log_parse ds = Some es /\ log_parse (rev ds) = Some (rev es) /\
+    log_parse_carried ds = Some es' /\
+    map pe_except es = [[bs "/a/x"]; []] /\ map pe_except es' = [[bs "/a/x"]; [bs "/a/x"]] /\
+    map pe_format es = [bs "{status}"; lit_default_format] /\ map pe_format es' = [bs "{status}"; bs "{status}"].
+Proof. exists carried_demo. eexists. eexists. vm_compute. repeat split; reflexivity. Qed.
